@@ -71,6 +71,10 @@ ExprOk(e, inl) ==
     [] e.k = "blob" -> \A i \in 1..Len(e.fields) : ExprOk(e.fields[i].e, inl)
     [] e.k = "fld"  -> ExprOk(e.e, inl)
     [] e.k = "variant" -> (e.has => ExprOk(e.e, inl))
+    [] e.k = "paren" -> ExprOk(e.e, inl)
+    [] e.k = "un"    -> ExprOk(e.a, inl)
+    [] e.k = "idx"   -> ExprOk(e.e, inl)
+    [] e.k = "tuple" -> \A i \in 1..Len(e.es) : ExprOk(e.es[i], inl)
     [] OTHER -> TRUE
 LoopControlOk(tops) == \A i \in 1..Len(tops) : (tops[i].k = "def" => StmtOk(tops[i], FALSE))
 
